@@ -17,7 +17,9 @@ func InitGenesis(ctx sdk.Context, k keeper.Keeper, data types.GenesisState) {
 			k.SetRewardRule(ctx, pool.Id, r)
 		}
 		k.SetPool(ctx, pool)
-		if !k.Expired(ctx, pool) {
+		// a pool whose end height has not passed yet is still to be ended by the end blocker; at the end height
+		// itself keeper.Expired would consult the very queue that is being rebuilt here
+		if ctx.BlockHeight() <= pool.EndHeight {
 			k.EnqueueActivePool(ctx, pool.Id, pool.EndHeight)
 		}
 	}
